@@ -26,7 +26,7 @@ ASSUMPTIONS = [
     "prefixes bound to one URI; carriage returns",
     "generator and expat reader must agree on the infoset, otherwise the case is inconclusive",
 ]
-REQUIRED = ["documents_with_two_prefixes_on_one_namespace", "documents_larger_than_one_mebibyte", "imports_after_in_place_edit_of_an_earlier_import", "imports_raw", "imports_clean", "imports_collapse", "roundtrips", "docs_with_comments", "docs_with_redeclaration",
+REQUIRED = ["literals_given_in_another_container", "documents_with_two_prefixes_on_one_namespace", "documents_larger_than_one_mebibyte", "imports_after_in_place_edit_of_an_earlier_import", "imports_raw", "imports_clean", "imports_collapse", "roundtrips", "docs_with_comments", "docs_with_redeclaration",
             "docs_with_xml_attr", "docs_with_qualified_attr", "docs_with_cdata", "literal_hits", "blank_kept", "trimmed_to_none"]
 THREAD_HAMMER = "full"      # (mode T side shards: the hammering threads also import, load and copy documents of their own)
 EXHAUSTIVE = {"quick": False, "thorough": False}
@@ -159,7 +159,11 @@ def judge(ctx, doc, text, clean, collapse, literals):
     exp = xmlgen.expected_tree(again)
     store_before = set(Node.store)
     try:
-        t = metapype_io.from_xml(text, clean, collapse, tuple(literals)) if (clean, collapse, literals) != (True, False, ()) or ctx.rng.random() < 0.5 \
+        # (the names of the literal elements come as a tuple, a list, a set - whatever the caller keeps them in)
+        container = (tuple, tuple, list, set, frozenset)[(len(text) + len(literals)) % 5]
+        if container is not tuple:
+            ctx.count("literals_given_in_another_container")
+        t = metapype_io.from_xml(text, clean, collapse, container(literals)) if (clean, collapse, literals) != (True, False, ()) or ctx.rng.random() < 0.5 \
             else metapype_io.from_xml(text)
     except Exception as e:
         ctx.violation(f"import-raises:{type(e).__name__}@{emlkit.raise_site(e)}", f"from_xml raised {e!r}", wit())
